@@ -83,13 +83,38 @@ if exe:
     B.make_stream(w, [], 9, rng)
     B.make_stream(w, [(b'x', {})], 9, rng)
     files.append(('struct-empty-first', w.bytes()))
+    # special VALUES of the stored fields (forged payloads): zero, a single
+    # set bit (one flip away from zero), all ones, a single clear bit, zero
+    # halves -- a comparison that is lenient for particular stored or
+    # computed values is met by some flip of these
+    def rotl(x):
+        return ((x << 1) & 0xFFFFFFFF) | (x >> 31)
+    ks = [0, 15, 16, 31] if ck.quick else list(range(32))
+    specials = [0, 0xFFFFFFFF, 0x0000FFFF, 0xFFFF0000]
+    specials += [1 << k for k in ks] + [0xFFFFFFFF ^ (1 << k) for k in ks]
+    for t in specials:
+        pay = B.forge_crc(bytes(rng.randrange(256) for _ in
+                                range(rng.randrange(1, 40))), t)
+        w = B.BitWriter()
+        B.make_stream(w, [(pay, {})], 9, rng)     # block CRC = stream CRC = t
+        files.append(('special-1blk-%08x' % t, w.bytes()))
+    for t in specials[:4] + [1 << k for k in ks[:2] + ks[-1:]]:
+        c1 = rng.getrandbits(32)
+        p1 = B.forge_crc(bytes(rng.randrange(256) for _ in range(9)), c1)
+        p2 = B.forge_crc(bytes(rng.randrange(256) for _ in range(17)),
+                         t ^ rotl(c1))
+        w = B.BitWriter()
+        B.make_stream(w, [(b'lead', {})], 1, rng)
+        B.make_stream(w, [(p1, {}), (p2, {})], 9, rng)   # stream CRC = t
+        B.make_stream(w, [(b'trail', {})], 5, rng)
+        files.append(('special-2blk-mid-%08x' % t, w.bytes()))
     jobs = []
     meta = []
     # the header parser is resumable: put input-buffer boundaries at every
     # word of the small files, so that some fall between the two 16-bit
     # halves of a CRC field
     for name, data in files:
-        if len(data) > 2500:
+        if len(data) > 2500 or name.startswith('special-'):
             continue
         flds = crc_fields(data)
         for kind, off in flds:
